@@ -136,6 +136,14 @@ static void run_actions(Tst *t, int phase) {
             (*r->assert_true)(r, "scn.c", a->line, 0, "%s", (const char *)x);
             free(x);
         }
+        else if (!strcmp(k, "setparam")) {
+            /* a mock that fills an output parameter; the check passes iff it was filled */
+            static int src = 4711; int dst = 0;
+            expect_(r, "mocked_s", "scn.c", a->line,
+                    create_set_parameter_value_constraint("p", (intptr_t)&src, sizeof src), (Constraint *)0);
+            (void)mock_(r, "mocked_s", "scn.c", a->line, "p", (intptr_t)&dst);
+            (*r->assert_true)(r, "scn.c", a->line, dst == src, "output parameter %d", dst);
+        }
         else if (!strcmp(k, "die_in")) die_in(atoi(a->arg[0]));
         else if (!strcmp(k, "spin")) { for (;;) pause(); }
         else { fprintf(stderr, "scn_driver: unknown action %s\n", k); exit(97); }
